@@ -94,6 +94,16 @@ def run(ctx):
         a[1][4] = ("A", a[1][4][1][: rng.choice([1, 2, 3])])
         news.append(a)
     wires = [recgen.derive_wire(a) for a in news]
+    # batches as a broker may return them, not only as write_new_batch produces them: no records at
+    # all (a compacted batch), header fields that are not functions of the records
+    for i, w in enumerate(list(wires)):
+        if i % 6 == 0:
+            f = list(w[1]); f[9] = ("A", []); wires.append(("E", f))
+        elif i % 6 == 1:
+            f = list(w[1])
+            f[3] = ("I", rng.choice([0, 1, 2**31 - 1, -1, rng.randint(0, 10**6)]))
+            f[5] = ("I", f[5][1] + rng.choice([0, 1, 1000, 86400000]))
+            wires.append(("E", f))
     spec = driver.run_parallel(["specbatch " + values.render(w) for w in wires])
     cases = []      # (label, wire or None, bytes)
     for w, r in zip(wires, spec):
@@ -119,7 +129,7 @@ def run(ctx):
                 else:
                     fails.append({"what": "read_batch does not return the batch as encoded", "bytes": data.hex(),
                                   "python": py[:1500], "expected": exact[:1500]})
-            if any(r[1][3][0] != "N" or r[1][4][0] != "N" for r in w[1][9][1]):
+            if any(r[1][3][0] != "N" or r[1][4][0] != "N" for r in w[1][9][1]) or not w[1][9][1]:
                 nontrivial.add(common.digest(data.hex()))
         # write back what was read
         if py.startswith("ok"):
